@@ -1,6 +1,15 @@
 ------------------------------ MODULE MCChunker ------------------------------
 (* exhaustive configuration: the fixed-size machine for sizes 1..3 and the property machine
-   for bounds 2..3, inputs up to MaxL bytes, every reader fragmentation *)
+   for bounds 2..3, inputs up to MaxL bytes, every reader fragmentation; sessions: after a
+   finished run further instances of every configuration over inputs up to MCLaterL bytes while
+   up to MaxHeld chunks of the earlier runs are retained (or everything is dropped) *)
 EXTENDS Chunker
 MCCfgs == {[kind |-> "size", lo |-> s, hi |-> s] : s \in 1..3} \cup {[kind |-> "any", lo |-> 2, hi |-> 3]}
+MCLaterL == 4
+MCNext == \/ Call
+          \/ \E k \in 0..MaxL, eof \in BOOLEAN : Read(k, eof) \/ ReadMany(k, eof)
+          \/ \E n \in 1..MaxL : Emit(n)
+          \/ End
+          \/ \E c \in Cfgs, len \in 0..MCLaterL, drop \in BOOLEAN : NewRun(c, len, drop)
+MCSpec == Init /\ [][MCNext]_vars
 =============================================================================
